@@ -554,26 +554,16 @@ def durFields (u : DUnit) (x : Num) : Timex := match u with
   | .Y => { years := some x } | .Mo => { months := some x } | .W => { weeks := some x } | .D => { days := some x }
   | .H => { hours := some x } | .Mi => { minutes := some x } | .S => { seconds := some x }
 
-/-- parsing a duration with an integer amount (any non-empty ASCII digit string, leading zeros allowed) sets exactly
-the unit's field to `Decimal(amount)` -/
-theorem parse_dur (cfg : Cfg) (hc : CfgOK cfg) (u : DUnit) (digs : Str) (hd : AsciiDigs digs) (hne : digs ≠ []) :
-    parse cfg (renderDur u digs) = durFields u (.dec false (parseNatDv cfg.dv digs) 0) := by
-  obtain ⟨d0, dt, rfl⟩ : ∃ d0 dt, digs = d0 :: dt := by
-    cases digs with
-    | nil => exact absurd rfl hne
-    | cons a r => exact ⟨a, r, rfl⟩
-  have h0 := hd d0 (by simp)
-  have n82 : ¬ (d0 = 82) := by omega
-  have n84 : ¬ (d0 = 84) := by omega
-  have hm : ∀ c, cfg.dv c = none → c ≠ 46 →
-      matchAmount cfg.dv (d0 :: (dt ++ [c])) = some (d0 :: dt, [c]) := by
-    intro c h1 h2
-    have := matchAmount_int hc.dv (d0 :: dt) c [] hd (by simp) h1 h2
-    simpa using this
+/-- parsing `P[T]<amount><unit>` for an amount string `a` that the amount group captures whole (`hm`) and whose first
+character is neither `R` nor `T`: exactly the unit's field is set, to `Decimal(a)` -/
+theorem parse_dur_gen (cfg : Cfg) (hc : CfgOK cfg) (u : DUnit) (d0 : Nat) (dt : Str) (x : Num)
+    (n82 : ¬ (d0 = 82)) (n84 : ¬ (d0 = 84))
+    (hm : ∀ c, cfg.dv c = none → c ≠ 46 → matchAmount cfg.dv (d0 :: (dt ++ [c])) = some (d0 :: dt, [c]))
+    (hpd : parseDecimal cfg.dv (d0 :: dt) = x) :
+    parse cfg (renderDur u (d0 :: dt)) = durFields u x := by
   have hT : matchAmount cfg.dv (84 :: d0 :: (dt ++ [72])) = none ∧ matchAmount cfg.dv (84 :: d0 :: (dt ++ [77])) = none ∧
       matchAmount cfg.dv (84 :: d0 :: (dt ++ [83])) = none := by
     refine ⟨?_, ?_, ?_⟩ <;> simp [matchAmount, takeDigits, isDig, hc.dv.2 84 (by decide)]
-  have hpd := parseDecimal_int hc.dv (d0 :: dt) hd
   have e89 := hm 89 (hc.dv.2 89 (by decide)) (by decide)
   have e77 := hm 77 (hc.dv.2 77 (by decide)) (by decide)
   have e87 := hm 87 (hc.dv.2 87 (by decide)) (by decide)
@@ -584,6 +574,40 @@ theorem parse_dur (cfg : Cfg) (hc : CfgOK cfg) (u : DUnit) (digs : Str) (hd : As
     simp [renderDur, DUnit.isTime, DUnit.ch, parse, parseInto, sPresentRef, extractDuration, extract, hc.period, stdPeriod,
       firstSome, matchItems, startsWith, Timex.assign, Timex.assignDuration, dictGet, durFields, hpd, n82, n84,
       e89, e77, e87, e68, e72, e83, hT, sY, sM, sW, sD, sH, sS]
+
+/-- parsing a duration with an integer amount (any non-empty ASCII digit string, leading zeros allowed) sets exactly
+the unit's field to `Decimal(amount)` -/
+theorem parse_dur (cfg : Cfg) (hc : CfgOK cfg) (u : DUnit) (digs : Str) (hd : AsciiDigs digs) (hne : digs ≠ []) :
+    parse cfg (renderDur u digs) = durFields u (.dec false (parseNatDv cfg.dv digs) 0) := by
+  obtain ⟨d0, dt, rfl⟩ : ∃ d0 dt, digs = d0 :: dt := by
+    cases digs with
+    | nil => exact absurd rfl hne
+    | cons a r => exact ⟨a, r, rfl⟩
+  have h0 := hd d0 (by simp)
+  refine parse_dur_gen cfg hc u d0 dt _ (by omega) (by omega) ?_ (parseDecimal_int hc.dv (d0 :: dt) hd)
+  intro c h1 h2
+  have := matchAmount_int hc.dv (d0 :: dt) c [] hd (by simp) h1 h2
+  simpa using this
+
+/-- parsing a duration with a fractional amount `ip.fp` (`ip` possibly empty, `fp` non-empty, ASCII digits):
+the unit's field is `Decimal` with coefficient `int(ip ++ fp)` and exponent `-len(fp)` -/
+theorem parse_dur_frac (cfg : Cfg) (hc : CfgOK cfg) (u : DUnit) (ip fp : Str) (hip : AsciiDigs ip) (hfp : AsciiDigs fp)
+    (hne : fp ≠ []) :
+    parse cfg (renderDur u (ip ++ 46 :: fp)) =
+      durFields u (.dec false (parseNatDv cfg.dv (ip ++ fp)) (-(fp.length : Int))) := by
+  have hpd := parseDecimal_frac hc.dv ip fp hip
+  have hm : ∀ c, cfg.dv c = none → matchAmount cfg.dv (ip ++ 46 :: fp ++ [c]) = some (ip ++ 46 :: fp, [c]) :=
+    fun c h1 => matchAmount_frac hc.dv ip fp c [] hip hfp hne h1
+  cases ip with
+  | nil =>
+    refine parse_dur_gen cfg hc u 46 fp _ (by decide) (by decide) ?_ (by simpa using hpd)
+    intro c h1 _
+    simpa using hm c h1
+  | cons d0 dt =>
+    have h0 := hip d0 (by simp)
+    refine parse_dur_gen cfg hc u d0 (dt ++ 46 :: fp) _ (by omega) (by omega) ?_ (by simpa using hpd)
+    intro c h1 _
+    simpa using hm c h1
 
 /-- a duration field with an integral `Decimal` prints as `P[T]<n><unit>` with the plain digits of `n` -/
 theorem format_dur (u : DUnit) (n : Nat) : formatT (durFields u (.dec false n 0)) = .ok (renderDur u (nstr n)) := by
@@ -611,6 +635,38 @@ theorem duration_int_roundtrip (cfg : Cfg) (hc : CfgOK cfg) (u : DUnit) (digs : 
 example : AsciiDigs [48, 48, 49, 48] ∧ renderDur .D [48, 48, 49, 48] = [80, 48, 48, 49, 48, 68] ∧
     renderDur .Mi (nstr 90) = [80, 84, 57, 48, 77] := by
   refine ⟨by intro c hc; simp at hc; omega, by decide, by decide⟩
+
+/-- a duration field holding any non-negative `Decimal` prints as `P[T]<str(Decimal)><unit>` -/
+theorem format_dur_dec (u : DUnit) (c : Nat) (e : Int) :
+    formatT (durFields u (.dec false c e)) = .ok (renderDur u (decStr false c e)) := by
+  cases u <;>
+    simp [durFields, renderDur, DUnit.isTime, DUnit.ch, formatT, formatFuel, infer, isDate, isDateRange, isDuration, isTime,
+      isDefinite, truthyO, truthyS, formatDuration, optStr, Num.str, bind, Except.bind, pure, Except.pure]
+
+/-- C14 **duration_frac_roundtrip** — for all seven units and every fractional amount `ip.fp` (ASCII digits, `ip`
+possibly empty as in `P.5D`, `fp` non-empty) under the **exact guard** `len(fp) < len(str(int(ip ++ fp))) + 6` — the
+condition under which `str(Decimal)` stays in plain notation — `Timex(s).timex_value()` is a duration string `v`
+that parses to the same field values and formats to itself.  (`P0.5D`, `P1.50D`, `P.5D ↦ P0.5D`, `P0.000001D`; when
+the guard fails, e.g. `P0.0000001D`, the text is `P1E-7D`: `tiny_amount_not_stable`.) -/
+theorem duration_frac_roundtrip (cfg : Cfg) (hc : CfgOK cfg) (u : DUnit) (ip fp : Str) (hip : AsciiDigs ip)
+    (hfp : AsciiDigs fp) (hne : fp ≠ [])
+    (guard : fp.length < (nstr (parseNatDv cfg.dv (ip ++ fp))).length + 6) :
+    ∃ v, formatT (parse cfg (renderDur u (ip ++ 46 :: fp))) = .ok v ∧
+      parse cfg v = parse cfg (renderDur u (ip ++ 46 :: fp)) ∧ formatT (parse cfg v) = .ok v := by
+  have hk : 1 ≤ fp.length := List.length_pos_iff.mpr hne
+  have h1 := parse_dur_frac cfg hc u ip fp hip hfp hne
+  obtain ⟨ip', fp', hs, hip', hfp', hne', hlen, hval⟩ :=
+    decStr_frac_shape (parseNatDv cfg.dv (ip ++ fp)) fp.length hk guard
+  have hne'' : fp' ≠ [] := by intro h; rw [h] at hlen; simp at hlen; omega
+  have h2 := parse_dur_frac cfg hc u ip' fp' hip' hfp' hne''
+  rw [hval cfg.dv hc.dv, hlen, ← hs] at h2
+  refine ⟨renderDur u (decStr false (parseNatDv cfg.dv (ip ++ fp)) (-(fp.length : Int))), ?_, ?_, ?_⟩
+  · rw [h1, format_dur_dec]
+  · rw [h1, h2]
+  · rw [h2, format_dur_dec]
+
+example : (nstr 5).length = 1 ∧ (nstr 150).length = 3 ∧ decStr false 5 (-1) = [48, 46, 53] ∧
+    decStr false 1 (-6) = [48, 46, 48, 48, 48, 48, 48, 49] ∧ decStr false 1 (-7) = [49, 69, 45, 55] := by decide
 
 /-! ## durations and the recorded / repaired defects -/
 
